@@ -508,6 +508,10 @@ def _type_name_for_error_messages(expression_type):
     elif expression_type.which_type == "enumeration":
         # TODO(bolms): Should this be the fully-qualified name?
         return expression_type.enumeration.name.canonical_name.object_path[-1]
+    elif expression_type.which_type == "boolean":
+        return "boolean"
+    elif expression_type.which_type == "opaque":
+        return "structure or array"
     assert False, "Shouldn't be here."
 
 
@@ -545,6 +549,9 @@ def _type_check_passed_parameters(atomic_type, ir, source_file_name, errors):
             # _type_check_parameter will catch invalid parameter types at the
             # definition site; no need for another, probably-confusing error at any
             # usage sites.
+            continue
+        if not ir_data_utils.reader(atomic_type.runtime_parameter[i]).type.which_type:
+            # The argument failed its own type check, which has been reported.
             continue
         if (
             atomic_type.runtime_parameter[i].type.which_type
